@@ -220,6 +220,22 @@ def _merge_fields(ctx, f, label, self_arg=1, dflt_arg=2, only=None):
                            "list `%s` does not accumulate self and defaults in the documented order (%s extended with %s; append: inherited then own, prepend: own then "
                            "inherited - command-line prepends run before the document's)" % (fname, base, ext))
         if verdict is None:
+            # a closure (or expression) that *selects* one of the two lists instead of joining them
+            n_ = peel(o.operand(op))
+            sel_ = None
+            if n_.kind == "call" and method_name(n_.a) in ("Fn::call", "FnMut::call_mut", "FnOnce::call_once") and len(n_.kids) == 2:
+                cb_, _cn = closure_body(prog, f, n_.kids[0])
+                if cb_ is not None:
+                    r_ = peel(Origins(cb_).local(0))
+                    while r_.kind == "call" and method_name(r_.a) in ("slice::to_vec", "ToOwned::to_owned", "Clone::clone", "Vec::from") and r_.kids:
+                        r_ = peel(r_.kids[0])
+                    if r_.kind == "phi" and all(peel(k).kind == "arg" for k in r_.kids):
+                        sel_ = sorted(peel(k).a for k in r_.kids)
+            ftype_ = next((x["ty"] for x in adt["variants"][0]["fields"] if x["name"] == fname), "")
+            if sel_ is not None and "Vec<" in ftype_:
+                verdict = (False, "", "list `%s` is *selected* from one layer (closure returns one of its parameters %s), not accumulated: with `%s` in the front-matter and "
+                                      "on the command line one of the two lists is dropped - its documents are never run and never reported" % (fname, sel_, fname))
+        if verdict is None:
             parts = _list_parts(prog, f, o.operand(op))
             if parts is not None and len(parts) == 2:
                 verdict = (set(parts) == {(self_arg, fname), (dflt_arg, fname)} and _order_ok(fname, parts, self_arg, dflt_arg),
